@@ -454,8 +454,10 @@ class PLSSParser:
 
         for chunk in self.blocks:
             chunk_layout = None
-            if self.layout == COPY_ALL:
-                chunk_layout = COPY_ALL
+            if self.layout == COPY_ALL or self.mandate_layout:
+                # (If the layout is mandated, the ChunkParser does not
+                # deduce it, so it must be told.)
+                chunk_layout = self.layout
             # This automatically unpacks the relevant data into the PLSSParser's
             # attributes (tract_components, flags, unused_components).
             ChunkParser(chunk, layout=chunk_layout, parent=self)
